@@ -185,6 +185,20 @@ func opcodeBacktracks(op InstOp) bool {
 	}
 }
 
+// UsesStartAnchor reports whether the program contains a \G anchor. The meaning of \G depends
+// on where the search started, not only on the text at the attempted position, so callers must
+// not move the search origin for such programs.
+func (c *Code) UsesStartAnchor() bool {
+	for pos := 0; pos < len(c.Codes); {
+		op := InstOp(c.Codes[pos]) & Mask
+		if op == Start {
+			return true
+		}
+		pos += opcodeSize(op)
+	}
+	return false
+}
+
 func opcodeSize(op InstOp) int {
 	op &= Mask
 
